@@ -45,7 +45,8 @@ fn compare<T: Nums + Evaluate>(what: &str, res: &Piecewise<T>, src_ends: &[f64],
     }
     // value level, both sides of every breakpoint: the piecewise value is the operated piece's own value
     // (long functions: structure only, the value level adds nothing once every piece and end is bit-identical)
-    if src_ends.len() > 40 {
+    // (end lists that are not non-decreasing, or hold a NaN: which piece an argument selects is not defined by C02; structure only)
+    if src_ends.len() > 40 || src_ends.windows(2).any(|w| !(w[0] <= w[1])) || src_ends.iter().any(|e| e.is_nan()) {
         return Ok(());
     }
     for x in order_alphabet(src_ends) {
@@ -164,6 +165,30 @@ pub fn check(thorough: bool, _seed: u64) -> Check {
     sh.push(vec![1.0, exact::succ(1.0), exact::succ(exact::succ(1.0))]);
     sh.push(vec![1e-18, 2e-18, 3e-18]);
     sh.push(vec![-3e-300, -2e-300, 5e-324, 1e-300]);
+    // the property is stated for all piecewise functions: end lists in any order (every sequence of length 2..4 over {1,2,3}
+    // that is not non-decreasing), and lists holding NaN / -inf ends; the operators must leave those bit-identical too
+    let ordered = sh.len();
+    {
+        let vals = [1.0, 2.0, 3.0];
+        for len in 2..=4usize {
+            for code in 0..3usize.pow(len as u32) {
+                let e: Vec<f64> = (0..len).map(|i| vals[(code / 3usize.pow(i as u32)) % 3]).collect();
+                if e.windows(2).any(|w| w[0] > w[1]) {
+                    sh.push(e);
+                }
+            }
+        }
+        sh.push(vec![0.6947, 0.6844, 0.7268]);
+        sh.push(vec![2.0, exact::pred(2.0)]);
+        sh.push(vec![1.0, 0.0, -0.0, 0.0]);
+        sh.push(vec![f64::INFINITY, 1.0, f64::NEG_INFINITY]);
+        sh.push(vec![f64::NAN]);
+        sh.push(vec![1.0, f64::NAN, 0.5]);
+        sh.push(vec![f64::NAN, 2.0, f64::from_bits(0x7ff8_0000_0000_0001), 1.0]);
+        sh.push((0..9).map(|i| (9 - i) as f64).collect());
+        sh.push((0..12).map(|i| ((i * 7) % 12) as f64).collect());
+    }
+    let unordered = sh.len() - ordered;
     let sh = Arc::new(sh);
     let n = cs.len();
     let cs2 = cs.clone();
@@ -210,7 +235,7 @@ pub fn check(thorough: bool, _seed: u64) -> Check {
         }),
         classes: vec![],
         bounds: json!({"cases": "every operator on Segment / Piecewise for every piece type it exists for (list under operator_cases)",
-            "shapes": format!("end lists of length 1..{} over {{1..4}}, 1..3 over {{0.5,2,+inf}} and over {{-1,-0.0,+0.0,5e-324}}; 1..n for n=6,9 plain and with duplicate runs; breakpoints one ulp apart; tiny-domain lists (1e-18 scale, 1e-300 scale)", if thorough {5} else {4}),
+            "shapes": format!("end lists of length 1..{} over {{1..4}}, 1..3 over {{0.5,2,+inf}} and over {{-1,-0.0,+0.0,5e-324}}; 1..n for n=6,9 plain and with duplicate runs; breakpoints one ulp apart; tiny-domain lists (1e-18 scale, 1e-300 scale); plus {} end lists that are not non-decreasing or hold NaN / infinite ends (every sequence of length 2..4 over {{1,2,3}} with a descent, descending and shuffled lists of 9 and 12, NaN ends with two payloads) - structure level only", if thorough {5} else {4}, unordered),
             "scalars": "{0,-0.0,1,-1,2,0.1,1e-300,1e300}", "value level": "every x of A(ends) through the real Piecewise::evaluate, compared on bits with the operated piece's own evaluate"}),
     };
     let mut extra = serde_json::Map::new();
